@@ -220,8 +220,8 @@ class C17(Check):
         w = streams["work"]
         k = streams["knobs"]
         nrad = k.randrange(1, 4)
-        if k.random() < 0.03:
-            nrad = k.choice([130, 260, 600])  # scale runs: a registry with hundreds of radios (and, below, a history long enough to fill it)
+        if k.random() < 0.012:
+            nrad = k.choice([130, 600, 1500, 2300])  # scale runs: a registry with hundreds / thousands of radios (and, below, a history long enough to fill it)
         radios = [k.randrange(1, 1 << 24) for _ in range(nrad)]
         knobs = {
             "handler": "RRS" if k.random() < 0.85 else "HSTRP",
@@ -246,12 +246,16 @@ class C17(Check):
         peers = PEERS6 if topo == "A" and k.random() < 0.15 else PEERS
         n = k.choice([1, 2, 3, 5, 8, 13, 21, 34, 55, 89, 144, 200]) if topo == "A" else k.choice([3, 8, 20, 40, 80])
         if nrad > 100 and topo == "A":
-            n = k.choice([400, 800])
+            n = k.choice([400, 800]) if nrad < 1000 else 2 * nrad
+            radios_left = list(radios)  # scale runs walk through the whole population once (every radio registers), then pick at random
+        streak = 0
         # class mix per run (swarm)
         classes = CLASSES + EXTRA_CLASSES
         weights = [w.choice([0, 1, 1, 2, 4]) for _ in classes]
         if sum(weights) == 0:
             weights = [1] * len(classes)
+        if nrad > 100:
+            weights[classes.index("reg")] = 3 * max(weights)  # scale runs are mostly registrations
         ops = []
         t = 0.0
         dsts = ["H1"] if topo == "A" else ["H1", "H2"]
@@ -263,10 +267,19 @@ class C17(Check):
         sched = streams["sched"]
         for _ in range(n):
             t += w.expovariate(1.0 / span)
-            cls = w.choices(classes, weights)[0]
-            data, meta = build(cls, w, radios)
+            if streak:
+                streak -= 1  # a run of the same message class from the same peer (a radio that only heartbeats, a peer that retries)
+            else:
+                cls = w.choices(classes, weights)[0]
+                src = list(peers[w.randrange(npeers)])
+                if w.random() < 0.03:
+                    streak = w.choice([2, 3, 5, 11, 12, 20, 70])
+            if nrad > 100 and topo == "A" and radios_left and cls in ("reg", "reg_on_ack", "data_t0reg"):
+                data, meta = build(cls, w, [radios_left.pop()])
+            else:
+                data, meta = build(cls, w, radios)
             op = {"kind": "deliver", "t": round(t, 6), "prio": sched.randrange(1000), "dst": w.choice(dsts),
-                  "src": list(peers[w.randrange(npeers)]), "data": data.hex(), "label": cls, "clean": True,
+                  "src": src, "data": data.hex(), "label": cls, "clean": True,
                   "meta": meta, "f": []}
             if rates:
                 if f.random() < rates.get("clock_jump", 0):
@@ -732,12 +745,15 @@ class _Run:
                     res.probe("offline_then_online")
                 m["registry"][ip] = new
             elif label is None:
-                changed = {k for k in reg_now if reg_now[k] != {kk: vv.name for kk, vv in reg_before.items()}.get(k)}
+                before_names = {kk: vv.name for kk, vv in reg_before.items()}
+                changed = {k for k in reg_now if reg_now[k] != before_names.get(k)}
                 if len(changed) > 1 or len(reg_now) < len(reg_before):
                     res.violate("C17.7 registry", site, f"one datagram changed {len(changed)} registry entries / removed entries", at=at)
                 m["registry"] = dict(reg_now)
             if reg_now != m["registry"]:
-                res.violate("C17.7 registry", site, f"registry {reg_now} != model {m['registry']} after {data.hex()}", at=at)
+                dk = sorted(k for k in set(reg_now) | set(m["registry"]) if reg_now.get(k) != m["registry"].get(k))
+                res.violate("C17.7 registry", site, f"registry differs from the model in {len(dk)} of {len(m['registry'])} radios after {data.hex()}: "
+                            f"{[(k, reg_now.get(k), m['registry'].get(k)) for k in dk[:4]]} (radio, real, model)", at=at)
                 m["registry"] = dict(reg_now)
         # coverage
         on = sum(1 for v in m["registry"].values() if v == "Online")
